@@ -20,6 +20,13 @@
 (* history-freedom, and (where the operation has a functional meaning) the *)
 (* denotational result of Bdd.tla.                                         *)
 (*                                                                         *)
+(* "drop" events: the client forgets a result (the harness pins nodes only  *)
+(* weakly, so a node can die when the table lets go of it).  `live` are    *)
+(* the results still held; table entries may disappear (`gone`) only if no *)
+(* live result reaches them and never the leaves; size() must equal the    *)
+(* number of distinct table values; formula evaluations sharing the        *)
+(* environment must denote Lang!SemC of their parse tree.                  *)
+(*                                                                         *)
 (* Several histories are concatenated with "reset" events.  A rejected     *)
 (* event is reported and the rest of that history is skipped (its abstract *)
 (* state is no longer trustworthy); validation resumes at the next reset.  *)
